@@ -128,6 +128,22 @@ def do_fault(kind, reply=None):
         OUT.write(struct.pack("<BBHI", ver, 0x10, res, 6) + b"\x07\x01" + struct.pack("<I", 0xFFFFFFFF)); OUT.flush(); return
     if kind == "string_len_past_end":
         OUT.write(struct.pack("<BBHI", ver, 0x10, res, 9) + b"\x05" + struct.pack("<I", 0xFFFFFFF0) + b"abcd"); OUT.flush(); return
+    if kind == "array_count_huge_one_elem":
+        body = b"\x07\x01" + struct.pack("<I", 0xFFFFFFFF) + b"\x01" + struct.pack("<q", 7)
+        OUT.write(struct.pack("<BBHI", ver, 0x10, res, len(body)) + body); OUT.flush(); return
+    if kind == "string_len_wrap":
+        # pos + len wraps in 32 bits: tag, len = 2^32 - 4, four bytes of data
+        OUT.write(struct.pack("<BBHI", ver, 0x10, res, 9) + b"\x05" + struct.pack("<I", 0xFFFFFFFC) + b"abcd"); OUT.flush(); return
+    if kind == "array_inner_string_wrap":
+        body = b"\x07\x05" + struct.pack("<I", 2) + b"\x05" + struct.pack("<I", 1) + b"x" + b"\x05" + struct.pack("<I", 0xFFFFFFF0)
+        OUT.write(struct.pack("<BBHI", ver, 0x10, res, len(body)) + body); OUT.flush(); return
+    if kind == "array_nested_deep":
+        body = (b"\x07\x07" + struct.pack("<I", 1)) * 60000 + b"\x01" + b"\x00" * 8
+        OUT.write(struct.pack("<BBHI", ver, 0x10, res, len(body)) + body); OUT.flush(); return
+    if kind == "ffi_error_300":
+        OUT.write(struct.pack("<BBHI", ver, 0x11, res, 300) + b"E" * 300); OUT.flush(); return
+    if kind == "ffi_error_20000":
+        OUT.write(struct.pack("<BBHI", ver, 0x11, res, 20000) + b"E" * 20000); OUT.flush(); return
     if kind == "ffi_error_empty":
         OUT.write(struct.pack("<BBHI", ver, 0x11, res, 0)); OUT.flush(); return
     if kind == "ffi_error_1mb":
